@@ -608,4 +608,145 @@ theorem sendTimeLocked_nolock_ok (now : Int) (w : World) (amt : Coins)
   unfold sendTimeLocked
   simp only [hs, hn, Bool.not_true, Bool.false_eq_true, ite_false, ite_true, bankSend_ok w amt hb hs]
 
+/-! ### The keeper's own context after the call (no rollback) -/
+
+theorem isAllGTE_iff (a b : Coins) : isAllGTE a b = true ↔ ∀ d, d < ND → b d ≤ a d := by
+  unfold isAllGTE
+  simp only [List.all_eq_true, List.mem_range, decide_eq_true_eq]
+
+theorem isAllGTE_false_of_lt (a b : Coins) (d : Denom) (hd : d < ND) (h : a d < b d) :
+    isAllGTE a b = false := by
+  cases hs : isAllGTE a b
+  · rfl
+  · have := (isAllGTE_iff a b).1 hs d hd
+    omega
+
+/-- a fully covered debit runs to its end and subtracts exactly the visited denoms -/
+theorem subUnlockedFrom_ok (amt : Coins) : ∀ (n : Nat) (d : Nat) (bal : Coins),
+    (∀ e, d ≤ e → e < d + n → amt e ≤ bal e) →
+    subUnlockedFrom amt d n bal = (fun e => if d ≤ e ∧ e < d + n then bal e - amt e else bal e, true) := by
+  intro n
+  induction n with
+  | zero =>
+    intro d bal _
+    show (bal, true) = _
+    congr 1
+    funext e
+    unfold Denom at *
+    have : ¬ (d ≤ e ∧ e < d + 0) := by omega
+    simp only [this, ite_false]
+  | succ n ih =>
+    intro d bal h
+    have hd : ¬ bal d < amt d := by have := h d (Nat.le_refl d) (by omega); omega
+    show (if bal d < amt d then (bal, false) else subUnlockedFrom amt (d + 1) n (bal.set d (bal d - amt d))) = _
+    simp only [hd, ite_false]
+    rw [ih (d + 1) (bal.set d (bal d - amt d))]
+    · congr 1
+      funext e
+      unfold Denom at *
+      unfold Coins.set
+      by_cases h1 : e = d
+      · subst h1
+        have c1 : ¬ (e + 1 ≤ e ∧ e < e + 1 + n) := by omega
+        have c2 : e ≤ e ∧ e < e + (n + 1) := by omega
+        simp only [c1, c2, ite_true, ite_false, and_self]
+      · by_cases h2 : d + 1 ≤ e ∧ e < d + 1 + n
+        · have c2 : d ≤ e ∧ e < d + (n + 1) := by omega
+          simp only [h1, h2, c2, ite_true, ite_false, and_self]
+        · have c2 : ¬ (d ≤ e ∧ e < d + (n + 1)) := by omega
+          simp only [h1, h2, c2, ite_false]
+    · intro e he1 he2
+      unfold Denom at *
+      unfold Coins.set
+      have h1 : ¬ e = d := by omega
+      simp only [h1, ite_false]
+      exact h e (by omega) (by omega)
+
+/-- behind the guard over all denoms the bank can only refuse a blocked recipient, before touching anything -/
+theorem bankSendK_guarded (w : World) (amt : Coins) (hs : isAllGTE w.modBal amt = true) :
+    bankSendK w amt =
+      if w.blocked then (w, false)
+      else ({ w with modBal := fun e => if e < ND then w.modBal e - amt e else w.modBal e,
+                     bal := Coins.add w.bal amt }, true) := by
+  unfold bankSendK
+  have h := (isAllGTE_iff w.modBal amt).1 hs
+  rw [subUnlockedFrom_ok amt ND 0 w.modBal (fun e _ he => h e (by omega))]
+  have e1 : (fun e => if 0 ≤ e ∧ e < 0 + ND then w.modBal e - amt e else w.modBal e) =
+      (fun e => if e < ND then w.modBal e - amt e else w.modBal e) := by
+    funext e
+    unfold Denom at *
+    by_cases c : e < ND
+    · have c2 : 0 ≤ e ∧ e < 0 + ND := by omega
+      simp only [c, c2, ite_true, and_self]
+    · have c2 : ¬ (0 ≤ e ∧ e < 0 + ND) := by omega
+      simp only [c, c2, ite_false]
+  simp only [e1, ite_true]
+
+/-- every refusal of `SendTimeLockedCoinsToAccount` leaves the keeper's own context as it was -/
+theorem sendTimeLockedK_refused_unchanged (now : Int) (w : World) (amt : Coins) (length : Int)
+    (h : (sendTimeLockedK now w amt length).2 = false) : (sendTimeLockedK now w amt length).1 = w := by
+  unfold sendTimeLockedK at h ⊢
+  cases hs : isAllGTE w.modBal amt
+  · simp only [Bool.not_false, ite_true]
+  · have hb := bankSendK_guarded w amt hs
+    simp only [hs, Bool.not_true, Bool.false_eq_true, ite_false] at h ⊢
+    cases h2 : w.acct.isNone
+    · simp only [h2, Bool.false_eq_true, ite_false] at h ⊢
+      by_cases h3 : length = 0
+      · simp only [h3, ite_true, hb] at h ⊢
+        cases hbl : w.blocked
+        · simp only [hbl, Bool.false_eq_true, ite_false] at h
+          exact absurd h (by decide)
+        · simp only [ite_true]
+      · simp only [h3, ite_false] at h ⊢
+        cases hacct : w.acct <;> simp only [hacct, hb] at h ⊢ <;>
+          (cases hbl : w.blocked <;> simp only [hbl, Bool.false_eq_true, ite_false, ite_true] at h ⊢) <;>
+          first
+          | exact absurd h (by decide)
+          | rfl
+    · simp only [ite_true]
+
+/-- exceeding the module balance in any one denom is refused, nothing moved -/
+theorem sendTimeLockedK_exceeds (now : Int) (w : World) (amt : Coins) (length : Int)
+    (d : Denom) (hd : d < ND) (h : w.modBal d < amt d) : sendTimeLockedK now w amt length = (w, false) := by
+  unfold sendTimeLockedK
+  simp only [isAllGTE_false_of_lt w.modBal amt d hd h, Bool.not_false, ite_true]
+
+/-- the rollback-free semantics refines `sendTimeLocked`: same verdict, same post-state on success
+    (amounts live in the denom universe) -/
+theorem sendTimeLockedK_refines (now : Int) (w : World) (amt : Coins) (length : Int)
+    (hsupp : ∀ d, ND ≤ d → amt d = 0) :
+    sendTimeLocked now w amt length =
+      if (sendTimeLockedK now w amt length).2 then .ok (sendTimeLockedK now w amt length).1 else .err := by
+  unfold sendTimeLocked sendTimeLockedK
+  cases hs : isAllGTE w.modBal amt
+  · simp only [Bool.not_false, ite_true, Bool.false_eq_true, ite_false]
+  · have hb := bankSendK_guarded w amt hs
+    have e1 : (fun e => if e < ND then w.modBal e - amt e else w.modBal e) = Coins.sub w.modBal amt := by
+      funext e
+      unfold Denom at *
+      unfold Coins.sub
+      by_cases c : e < ND
+      · simp only [c, ite_true]
+      · have := hsupp e (by omega)
+        simp only [c, ite_false, this]; omega
+    rw [e1] at hb
+    simp only [Bool.not_true, Bool.false_eq_true, ite_false]
+    cases h2 : w.acct.isNone
+    · simp only [Bool.false_eq_true, ite_false]
+      cases hbl : w.blocked
+      · have hb2 := bankSend_ok w amt hbl hs
+        simp only [hbl, Bool.false_eq_true, ite_false] at hb
+        by_cases h3 : length = 0
+        · simp only [h3, ite_true, hb, hb2, hbl]
+        · simp only [h3, ite_false]
+          cases hacct : w.acct <;> simp only [hb, hb2, hbl, ite_true, Bool.false_eq_true, ite_false]
+      · have hb2 := bankSend_blocked w amt hbl
+        simp only [hbl, ite_true] at hb
+        by_cases h3 : length = 0
+        · simp only [h3, ite_true, hb, hb2, Bool.false_eq_true, ite_false]
+        · simp only [h3, ite_false]
+          cases hacct : w.acct <;> simp only [hb, hb2, Bool.false_eq_true, ite_false]
+    · simp only [ite_true, Bool.false_eq_true, ite_false]
+
 end KV.Vest
